@@ -30,7 +30,7 @@ ASSUMPTIONS = [
 OBLIGATIONS = {"acyclic": 300, "cyclic": 100, "field:default": 100,
                "field:negatives": 100, "field:zeros": 50, "field:reachable-nodata": 50, "has-upstream": 200,
                "terminal-cell": 200, "reduced-max": 20, "random-forest": 5,
-               "inputs-unaltered": 300, "dtype-variant": 100}
+               "inputs-unaltered": 300, "dtype-variant": 100, "layout-variant": 50}
 
 
 def mods():
@@ -42,7 +42,20 @@ FD_DTYPES = {"i8": np.int64, "i4": np.int32, "u1": np.uint8, "f8": np.float64}
 TA_DTYPES = {"f8": np.float64, "f4": np.float32, "i8": np.int64}
 
 
-def make_grids(codes, field, nodata, fd_dtype="i8", ta_dtype="f8"):
+def _layout(a, layout):
+    """same values, different memory layout of the array handed to Grid.data"""
+    if layout == "F":
+        return np.asfortranarray(a)
+    if layout == "T":                      # transposed view of a C array
+        return np.ascontiguousarray(a.T).T
+    if layout == "S":                      # strided view (every other column)
+        big = np.zeros((a.shape[0], 2 * a.shape[1]), dtype=a.dtype)
+        big[:, ::2] = a
+        return big[:, ::2]
+    return a
+
+
+def make_grids(codes, field, nodata, fd_dtype="i8", ta_dtype="f8", layout="C"):
     g = mods()
     codes = np.asarray(codes, dtype=np.int64)
     nr, nc = codes.shape
@@ -50,7 +63,7 @@ def make_grids(codes, field, nodata, fd_dtype="i8", ta_dtype="f8"):
     if fd_dtype == "u1" and (codes.min() < 0 or codes.max() > 255):
         fdt = np.int64
     fd = g.Grid("fd", nc, nr, dtype=fdt)
-    fd.data = codes
+    fd.data = _layout(codes, layout)
     ta = None
     if field is not None:
         tdt = TA_DTYPES[ta_dtype]
@@ -58,7 +71,7 @@ def make_grids(codes, field, nodata, fd_dtype="i8", ta_dtype="f8"):
         if ta_dtype == "i8" and not np.all(f == np.round(f)):
             tdt = np.float64
         ta = g.Grid("ta", nc, nr, dtype=tdt, nodata=nodata)
-        ta.data = f
+        ta.data = _layout(f, layout)
     return fd, ta
 
 
@@ -85,7 +98,9 @@ def run_case(ctx, case):
     cyc = model.has_cycle()
     ctx.evaluated()
     fd, ta = make_grids(codes, field, nodata, case.get("fd_dtype", "i8"),
-                        case.get("ta_dtype", "f8"))
+                        case.get("ta_dtype", "f8"), case.get("layout", "C"))
+    if case.get("layout", "C") != "C" and min(codes.shape) > 1:
+        ctx.tag("layout-variant")
     if case.get("fd_dtype", "i8") != "i8" or case.get("ta_dtype", "f8") != "f8":
         ctx.tag("dtype-variant")
     if ta is not None:
@@ -174,7 +189,8 @@ def run(ctx):
                         "field": None if f is None else f.tolist(), "nodata": nd,
                         "fieldname": nm,
                         "fd_dtype": ["i8", "i4", "u1", "f8"][idx % 4],
-                        "ta_dtype": ["f8", "f4", "i8"][(idx // 4) % 3]}
+                        "ta_dtype": ["f8", "f4", "i8"][(idx // 4) % 3],
+                        "layout": ["C", "F", "C", "T", "C", "S"][(idx // 3) % 6]}
                 run_case(ctx, case)
                 if idx % 7919 == 0 and nm == "negatives":
                     ctx.sample(case)
@@ -195,7 +211,8 @@ def run(ctx):
         for nm, f, nd in fields_for(rng, nr, nc):
             run_case(ctx, {"kind": "acc", "codes": codes.tolist(),
                            "field": None if f is None else f.tolist(), "nodata": nd,
-                           "fieldname": nm, "nprint": [100, 1, 7][it % 3]})
+                           "fieldname": nm, "nprint": [100, 1, 7][it % 3],
+                           "layout": ["C", "F", "T", "S"][(it // 3) % 4]})
         rc = rng.choice(CODES, size=(nr, nc))
         run_case(ctx, {"kind": "acc", "codes": rc.tolist(), "field": None,
                        "nodata": 0.0, "fieldname": "default"})
